@@ -314,7 +314,59 @@ class Interp:
         st.assume(b)
         return [Outcome("fall", st)]
 
+    def _cond_append(self, s, state, module):
+        """`if c: L.append(e)` (optionally chained with elif of the same shape) on a concrete list L that is only
+        ever tested for emptiness afterwards: recorded as a conditional append instead of forking the path
+        (2^n paths for n independent checks otherwise).  Every other use of such a list is rejected (Unsupported)."""
+        chain, node = [], s
+        while True:
+            if not (len(node.body) == 1 and isinstance(node.body[0], ast.Expr) and isinstance(node.body[0].value, ast.Call)):
+                return None
+            call = node.body[0].value
+            if not (isinstance(call.func, ast.Attribute) and call.func.attr == "append" and isinstance(call.func.value, ast.Name)
+                    and len(call.args) == 1 and isinstance(call.args[0], (ast.JoinedStr, ast.Constant))):
+                return None
+            chain.append((node.test, call.func.value.id))
+            if not node.orelse:
+                break
+            if len(node.orelse) == 1 and isinstance(node.orelse[0], ast.If):
+                node = node.orelse[0]
+                continue
+            return None
+        if len({nm for _, nm in chain}) != 1:
+            return None
+        lst = state.env.get(chain[0][1])
+        if not (isinstance(lst, Ref) and lst.kind == "list" and "__symlen__" not in state.cell(lst)):
+            return None
+        npc = len(state.pc)
+        conds, prior = [], []
+        try:
+            for test, _ in chain:
+                v = self.eval(test, state, module)
+                c = self.truth(v, state)
+                eff_c = c if not prior else (z3.And(*[z3.Not(to_z3(p)) for p in prior], to_z3(c)) if not isinstance(c, bool) or c else False)
+                conds.append(eff_c)
+                prior.append(c)
+                if c is True:
+                    break      # later tests of the chain are not evaluated by Python either
+                state.pc.append(z3.Not(to_z3(c)) if not isinstance(c, bool) else z3.BoolVal(not c))
+        except _Fork:
+            del state.pc[npc:]
+            return None
+        del state.pc[npc:]
+        cell = state.cell(lst)
+        for c in conds:
+            if c is True:
+                cell["__list__"].append("<message>")
+            elif c is not False:
+                cell["__condapp__"] = list(cell.get("__condapp__", [])) + [c]
+        return [Outcome("fall", state)]
+
     def exec_if(self, s, state, module):
+        r = self._cond_append(s, state, module)
+        if r is not None:
+            return r
+
         def k(st, v):
             c = self.truth(v, st)
             outs = []
@@ -623,6 +675,8 @@ class Interp:
         if isinstance(it, (list, tuple, frozenset, set, range)):
             items = sorted(it) if isinstance(it, (frozenset, set)) else list(it)
         elif isinstance(it, Ref) and it.kind == "list":
+            if state.cell(it).get("__condapp__"):
+                raise Unsupported("iteration over a list with conditional appends")
             items = list(state.cell(it)["__list__"])
         elif isinstance(it, Opaque) and it.tag == "dictitems":
             items = list(it.info["items"])
@@ -1174,6 +1228,8 @@ class Interp:
                 if "__symlen__" in c:
                     n = c["__symlen__"]
                     return (n > 0) if isinstance(n, int) else (to_z3(n, "int") > 0)
+                if c.get("__condapp__") and not c["__list__"]:
+                    return z3.Or(*[to_z3(x) for x in c["__condapp__"]])
                 return len(c["__list__"]) > 0
             if v.kind == "dict":
                 return len(st.cell(v)["__dict__"]) > 0
@@ -1181,7 +1237,8 @@ class Interp:
                 c = st.cell(v)
                 if "__set__" in c:
                     return len(c["__set__"]) > 0
-                raise Unsupported("truth value of a symbolic set")
+                j = z3.Int(fresh_name("j"))
+                return z3.Exists([j], c["__mem__"](j))
             if v.kind == "obj":
                 return True
             if v.kind == "arr":
